@@ -130,6 +130,92 @@ func main() {
 			t.Note(fmt.Sprintf("every valid prefix (open or closed) of depth<=%d x every header of Fin x Rsv{0,1,2,4,7} x OpCode x Masked x Len{0,1,125,126,65536} that the rule list rejects in the state the prefix leaves; offender payload = marker bytes, then a canary message", D-1))
 		})
 
+		r.Part("E2b-size-limit-control-frames", func(t *explore.T) {
+			for _, side := range []streams.Side{streams.Server, streams.Client} {
+				for _, inMsg := range []bool{false, true} {
+					for _, op := range []byte{8, 9, 10} {
+						for _, limit := range []int64{1, 2, 8, 124} {
+							for _, ann := range []int64{0, limit - 1, limit, limit + 1, 125} {
+								for _, drv := range []string{"Reader", "Reader+handler"} {
+									side, inMsg, op, limit, ann, drv := side, inMsg, op, limit, ann, drv
+									t.Do(func() string {
+										return fmt.Sprintf("%s control op=%x inMessage=%v MaxFrameSize=%d announced=%d driver=%s", side, op, inMsg, limit, ann, drv)
+									}, func() *explore.Fail {
+										mk := func(o byte, fin bool, p []byte) []byte {
+											return refmodel.Frame{H: refmodel.Hdr{Fin: fin, Op: o, Masked: side == streams.Server, Mask: [4]byte{4, 3, 2, 1}}, Payload: p}.Wire()
+										}
+										var pre []byte
+										if inMsg {
+											pre = mk(2, false, []byte("a"))
+										}
+										payload := bytes.Repeat([]byte{0xEE}, int(ann))
+										if op == 8 && ann >= 2 {
+											payload[0], payload[1] = 0x03, 0xe8
+										}
+										ctl := mk(op, true, payload)
+										hdrEnd := len(pre) + len(ctl) - len(payload)
+										data := append(append(append([]byte{}, pre...), ctl...), mk(0, true, []byte("b"))...)
+										if !inMsg {
+											data = append(append([]byte{}, ctl...), mk(2, true, []byte("ab"))...)
+										}
+										src := env.NewSrc(data)
+										dst := env.NewDst()
+										rd := &wsutil.Reader{Source: src, State: drivers.State(side), MaxFrameSize: limit}
+										handed := -1
+										rd.OnIntermediate = func(h ws.Header, r io.Reader) error {
+											p, err := io.ReadAll(r)
+											handed = len(p)
+											if drv == "Reader+handler" {
+												return wsutil.ControlFrameHandler(dst, drivers.State(side))(h, bytes.NewReader(p))
+											}
+											return err
+										}
+										var err error
+										var got []byte
+										for i := 0; i < 10 && err == nil; i++ {
+											var h ws.Header
+											h, err = rd.NextFrame()
+											if err != nil {
+												break
+											}
+											var p []byte
+											p, err = io.ReadAll(rd)
+											if h.OpCode.IsControl() {
+												handed = len(p)
+											} else {
+												got = append(got, p...)
+											}
+										}
+										if ann > limit {
+											if err != wsutil.ErrFrameTooLarge {
+												return explore.Failf("oversize-control-frame-not-refused", "announced %d > limit %d: err=%v, handler got %d bytes, data %q", ann, limit, err, handed, got)
+											}
+											if src.Off > hdrEnd {
+												return explore.Failf("payload-read-before-refusal", "consumed %d, header ends at %d", src.Off, hdrEnd)
+											}
+											if handed >= 0 || len(dst.Bytes()) != 0 {
+												return explore.Failf("oversize-control-payload-delivered", "")
+											}
+											if inMsg && len(got) > 1 || !inMsg && len(got) > 0 {
+												return explore.Failf("data-after-oversize-frame-delivered", "%q", got)
+											}
+											t.Outcome("refused")
+										} else {
+											if err == wsutil.ErrFrameTooLarge && limit >= 2 {
+												return explore.Failf("within-limit-refused", "announced %d <= limit %d", ann, limit)
+											}
+											t.Outcome("admitted")
+										}
+										return nil
+									})
+								}
+							}
+						}
+					}
+				}
+			}
+		})
+
 		r.Part("E2-size-limit", func(t *explore.T) {
 			for _, side := range []streams.Side{streams.Server, streams.Client} {
 				for _, inMsg := range []bool{false, true} {
